@@ -1,0 +1,55 @@
+//go:build verif
+
+package entry
+
+import (
+	"github.com/ipfs/go-log/v2"
+
+	beaconchain "github.com/keep-network/keep-core/pkg/beacon/chain"
+	"github.com/keep-network/keep-core/pkg/chain"
+	"github.com/keep-network/keep-core/pkg/protocol/group"
+)
+
+// Thin exported wrappers used by the /verif harness (property C47). No
+// behaviour of their own.
+
+// VerifC47SubmitRelayEntry builds a relayEntrySubmitter exactly as
+// SignAndSubmit does and runs submitRelayEntry.
+func VerifC47SubmitRelayEntry(
+	logger log.StandardLogger,
+	beaconChain beaconchain.Interface,
+	blockCounter chain.BlockCounter,
+	index group.MemberIndex,
+	newEntry []byte,
+	groupPublicKey []byte,
+	startBlockHeight uint64,
+	relayEntrySubmittedChannel <-chan uint64,
+	relayEntryTimeoutChannel <-chan uint64,
+) error {
+	submitter := &relayEntrySubmitter{
+		logger:       logger,
+		chain:        beaconChain,
+		blockCounter: blockCounter,
+		index:        index,
+	}
+	return submitter.submitRelayEntry(
+		newEntry,
+		groupPublicKey,
+		startBlockHeight,
+		relayEntrySubmittedChannel,
+		relayEntryTimeoutChannel,
+	)
+}
+
+// VerifC47SubmissionQueueIndex runs calculateSubmissionQueueIndex.
+func VerifC47SubmissionQueueIndex(
+	memberIndex uint64,
+	firstSubmitterMemberIndex uint64,
+	groupSize uint64,
+) uint64 {
+	return calculateSubmissionQueueIndex(
+		memberIndex,
+		firstSubmitterMemberIndex,
+		groupSize,
+	)
+}
